@@ -58,13 +58,31 @@ func VerifC04ReadPacket(c net.Conn, w cfg.Wrapper, t cfg.Transform) (*com.Packet
 // without the accept goroutine; the Server is a real NewServer value whose event loop is
 // replaced by VerifC04Pump.
 func VerifC04Listener(k data.KeyPair, m *VerifC04Mux, w cfg.Wrapper, t cfg.Transform) *Listener {
-	srv := NewServer(nil)
+	// one Server value per process (its 2048-slot event channel is expensive to make for every
+	// case); every Listener starts with an empty session table and empty queues
+	if verifC04Srv == nil {
+		verifC04Srv = NewServer(nil)
+	}
+	srv := verifC04Srv
+	srv.lock.Lock()
+	for i := range srv.sessions {
+		delete(srv.sessions, i)
+	}
+	srv.lock.Unlock()
+	for len(srv.delSession) > 0 {
+		<-srv.delSession
+	}
+	for len(srv.events) > 0 {
+		<-srv.events
+	}
 	srv.Keys = k
 	l := &Listener{name: "verif", ch: make(chan struct{})}
 	l.connection = connection{s: srv, m: m, w: w, t: t, log: srv.log}
 	l.ctx, l.cancel = context.WithCancel(srv.ctx)
 	return l
 }
+
+var verifC04Srv *Server
 
 // VerifC04Pump does what one turn of Server.listen does for the queued session removals and events.
 func VerifC04Pump(l *Listener) {
